@@ -141,7 +141,8 @@ theorem C15_bitmap (bits : List Bool) (i : Nat) (hi : i < bits.length) :
   GV.C15.bitmap_bit bits i hi
 
 /-- rows are decoded with the most recent table map announced for their id; names and signedness stay the ones the
-    mapper gave at the first announcement -/
+    mapper gave at the first announcement (of that table: `classify` calls a TABLE_MAP event `known` only when the id is
+    cached for the same database and name — GV/Props/C15c.lean) -/
 theorem C15_latest_map (st : PState) (id : Nat) (tc old : TableCache) (ho : findTable st.tables id = some old) :
     ∃ st', stepD st (.tableMap id tc true) = .cont st' ∧ findTable st'.tables id = some tc ∧
       (∀ j, j ≠ id → findTable st'.tables j = findTable st.tables j) ∧ st'.pos = st.pos ∧ st'.tran = st.tran :=
@@ -151,7 +152,7 @@ theorem C15_latest_map (st : PState) (id : Nat) (tc old : TableCache) (ho : find
 theorem C15_first_map (st : PState) (id : Nat) (tc : TableCache) (ho : findTable st.tables id = none) :
     ∃ st', stepD st (.tableMap id tc false) = .cont st' ∧ findTable st'.tables id = some tc ∧
       (∀ j, j ≠ id → findTable st'.tables j = findTable st.tables j) ∧ st'.pos = st.pos ∧ st'.tran = st.tran :=
-  ⟨_, rfl, GV.C15.findTable_append_same st.tables id tc ho,
+  ⟨{ st with tables := st.tables ++ [(id, tc)] }, by simp [stepD, ho], GV.C15.findTable_append_same st.tables id tc ho,
     fun j hj => GV.C15.findTable_append_other st.tables id tc j hj, rfl, rfl⟩
 
 /-- a mapper table whose column count disagrees with the table map is rejected with an error (and, as for every
